@@ -31,7 +31,7 @@ from harness.common import log
 class Family:
     name = "family"
     prelude = ""            # Coq Require lines for the case files
-    timeout = 20.0          # seconds per case before it is recorded as a hang
+    timeout = 20.0          # CPU seconds per case before it is recorded as a hang (see _is_hung)
     shard = 400             # cases per cases_*.v
     coq_timeout = 900
     workers = int(os.environ.get("VERIF_WORKERS", "6"))
@@ -68,6 +68,30 @@ HANG = {"__hang__": True}
 
 def crash_obs(status):
     return {"__crash__": status}
+
+
+def _cpu_seconds(pid):
+    """CPU time (user+system, all threads) consumed so far by process pid, or None."""
+    try:
+        with open("/proc/%d/stat" % pid) as f:
+            parts = f.read().rsplit(")", 1)[1].split()
+        return (int(parts[11]) + int(parts[12])) / float(os.sysconf("SC_CLK_TCK"))
+    except Exception:
+        return None
+
+
+def _is_hung(a, now, timeout):
+    """A case is a hang when the worker has burnt more than `timeout` seconds of CPU on it,
+    or has produced nothing for 10 x timeout of wall time (blocked without using CPU).
+    Wall time alone is not used below that cap: on a loaded machine a starved worker is
+    not a hung one (this was a false alarm once: C02 thorough, load average 40)."""
+    wall = now - a["t"]
+    if wall <= timeout:
+        return False
+    cpu = _cpu_seconds(a["pid"])
+    if cpu is None:
+        return wall > 3 * timeout
+    return (cpu - a["cpu"]) > timeout or wall > max(10 * timeout, 300.0)
 
 
 def _worker(family, cases, wfd):
@@ -107,7 +131,7 @@ def observe_all(family, cases):
                 os._exit(1)
         os.close(w)
         active.append({"pid": pid, "fd": r, "buf": b"", "chunk": chunk, "done": 0,
-                       "t": time.time()})
+                       "t": time.time(), "cpu": 0.0})
 
     for ch in chunks:
         spawn(ch)
@@ -126,6 +150,7 @@ def observe_all(family, cases):
                         obs[i] = o
                         a["done"] += 1
                         a["t"] = now
+                        a["cpu"] = _cpu_seconds(a["pid"]) or a["cpu"]
                     continue
                 # EOF: child finished or died
                 _, status = os.waitpid(a["pid"], 0)
@@ -137,7 +162,7 @@ def observe_all(family, cases):
                     code = os.WEXITSTATUS(status) if os.WIFEXITED(status) else None
                     obs[i] = crash_obs({"signal": sig, "exit": code})
                     spawn(a["chunk"][a["done"] + 1:])
-            elif now - a["t"] > family.timeout:
+            elif _is_hung(a, now, family.timeout):
                 os.kill(a["pid"], signal.SIGKILL)
                 os.waitpid(a["pid"], 0)
                 os.close(a["fd"])
@@ -210,7 +235,7 @@ def run_family(prop, family, seed, tier, workdir, model_ok, only_case=None):
             adapter_errors.append({"index": i, "case": c, "obs": o})
             continue
         if isinstance(o, dict) and "__hang__" in o:
-            fs = [("hang", "call did not return within %.0fs" % family.timeout)]
+            fs = [("hang", "call used more than %.0fs of CPU (or blocked 10x as long) without returning" % family.timeout)]
         elif isinstance(o, dict) and "__crash__" in o:
             fs = [("crash", "process died: %s" % o["__crash__"])]
         else:
